@@ -1,3 +1,3 @@
 #!/bin/sh
 # replays this counterexample against the real build
-cd /tmp/seedrepo_C07d && VERIF_SCRIPT=/verif/replays/C07/VHarnessFaultMelt_0879b598_0/script.json VERIF_RAW_SALT=0 GOFLAGS=-mod=mod GOPROXY=off go test -vet=off -count=1 -overlay /verif/replays/C07/VHarnessFaultMelt_0879b598_0/overlay.json -run ^TestVerifReplay_VHarnessFaultMelt$ -v ./mint
+cd /tmp/seedrepo_C07f && VERIF_SCRIPT=/verif/replays/C07/VHarnessFaultMelt_0879b598_0/script.json VERIF_RAW_SALT=0 GOFLAGS=-mod=mod GOPROXY=off go test -vet=off -count=1 -overlay /verif/replays/C07/VHarnessFaultMelt_0879b598_0/overlay.json -run ^TestVerifReplay_VHarnessFaultMelt$ -v ./mint
